@@ -28,8 +28,14 @@ def run(ctx, rep):
     if b is not None:
         pf = ok.path_facts(b)
         kinds = {"constant_output": 0, "verbatim_output": 0, "candidate": 0}
+        # the return place, and temporaries moved into it whole (`return helper(..)` after the helper is inlined)
+        ret_locals = {0}
+        for bl in b.blocks:
+            for s in bl["s"]:
+                if s["d"]["l"] == 0 and not s["d"]["p"] and s["rv"]["r"] == "use" and op_place(s["rv"]["o"]) is not None and not op_place(s["rv"]["o"])["p"]:
+                    ret_locals.add(op_place(s["rv"]["o"])["l"])
         for bi, s in agg_sites(b, "std::result::Result", "Ok"):
-            if s["d"]["l"] != 0 or s["d"]["p"]:
+            if s["d"]["l"] not in ret_locals or s["d"]["p"]:
                 continue
             sl = backward_slice(b, s["rv"]["ops"][0])
             flds = sl["fields"] & {"constant_output", "verbatim_output", "fixed_output", "lpc_output"}
